@@ -170,7 +170,7 @@ theorem readFlags_append (p t : Bytes) (h5 : 5 ≤ p.length) : readFlags (p ++ t
   rw [if_neg e1, if_neg e2]
 
 theorem readFields_len (d : Bytes) (f : Fields) (h : readFields d = some f) :
-    6 + 5 * f.fl.sizeBytes ≤ d.length ∧ 1 ≤ f.fl.sizeBytes := by
+    6 + 3 * f.fl.sizeBytes ≤ d.length ∧ 1 ≤ f.fl.sizeBytes := by
   unfold readFields at h
   cases hfl : readFlags d with
   | none => simp [hfl] at h
@@ -212,7 +212,7 @@ theorem readFields_append (p t : Bytes) (f : Fields) (hp : readFields p = some f
           simp only [Option.some.injEq] at hp
           subst hp
           simp only [Fields.hdrEnd] at hl hlen
-          have : ¬ (p ++ t).length < 5 + (1 + 5 * fl.sizeBytes) := by simp; omega
+          have : ¬ (p ++ t).length < 5 + (1 + 3 * fl.sizeBytes) := by simp; omega
           simp only [this, h2, if_false, uintAt]
           rw [pySlice_append_left p t _ _ (by omega), pySlice_append_left p t _ _ (by omega),
             pySlice_append_left p t _ _ (by omega), pySlice_append_left p t _ _ (by omega)]
